@@ -626,6 +626,17 @@ func (k *Kernel) parkedKeys() []string {
 	return out
 }
 
+// ResumeAll releases every goroutine held at a yield point (the run goes on).
+func (k *Kernel) ResumeAll() {
+	k.mu.Lock()
+	ps := k.parked
+	k.parked = nil
+	k.mu.Unlock()
+	for _, p := range ps {
+		close(p.ch)
+	}
+}
+
 // BeginSettle switches the run into its fault-free phase: parked goroutines are
 // released, idle tasks are told to stop, later yields never park.
 func (k *Kernel) BeginSettle() {
